@@ -121,7 +121,7 @@ def run(ctx):
         per_thread = []
         for tid, (script, solo) in enumerate(zip(r["scripts"], r["solo"])):
             ops = []
-            for op, res in zip(script, solo):
+            for op, res in zip(script or [], solo or []):
                 e = expand(op, res)
                 if e is None or any(x[1] is None for x in e):
                     skipped += 1
